@@ -205,13 +205,15 @@ Example C01_vmsteps_dispatch_nonvacuous :
 Proof. vm_compute. repeat split; reflexivity. Qed.
 
 (* ---- GenRuntime: the helper functions of vm/runtime.go (fetch, slice, in, length, negate, exponent, makeRange,
-   toInt, toInt64, toFloat64, isNil, FetchFn, FetchFnNil) are REGENERATED on every run (gen/GenRuntime.v, DSL +
-   interpreter Sem/PrimRules.v; package reflect, math.Pow and `equal` of vm/helpers.go stay primitives) and
+   toInt, toInt64, toFloat64, isNil, FetchFn, FetchFnNil, equalSequences) are REGENERATED on every run
+   (gen/GenRuntime.v, DSL + interpreter Sem/PrimRules.v; package reflect and math.Pow stay primitives, `equal` of
+   vm/helpers.go is a parameter of the interpreter: the model's p_equal here, rebuilt from its regenerated parts
+   in Bridge/BrRuntimeEq.v) and
    proved equal to the run-time helpers of the model Sem/Prim.v, one lemma per function (Bridge/BrRuntime.v).
    The statements are `Definition .._statement : Prop` in Bridge/BrRuntime.v; nothing is imported here. ---- *)
 Require X.Bridge.BrRuntime.
 
-(* every statement and expression of the thirteen functions is inside the DSL *)
+(* every statement and expression of the fourteen functions is inside the DSL *)
 Theorem C01_runtime_source_recognised : X.Bridge.BrRuntime.genruntime_all_recognised = true.
 Proof. exact X.Bridge.BrRuntime.genruntime_recognised. Qed.
 Print Assumptions C01_runtime_source_recognised.
@@ -226,9 +228,46 @@ Theorem C01_model_runtime_is_source : X.Bridge.BrRuntime.model_runtime_is_source
 Proof. exact X.Bridge.BrRuntime.model_runtime_is_source. Qed.
 Print Assumptions C01_model_runtime_is_source.
 
-(* the one function of runtime.go that is not read is equalSequences (part of `equal`, vm/helpers.go) *)
-Theorem C01_runtime_not_read : X.gen.GenRuntime.genruntime_not_read = ("equalSequences" :: nil)%list.
+(* no function of runtime.go is left unread *)
+Theorem C01_runtime_not_read : X.gen.GenRuntime.genruntime_not_read = nil.
 Proof. exact X.Bridge.BrRuntime.genruntime_not_read_is. Qed.
+Print Assumptions C01_runtime_not_read.
+
+(* ---- equalSequences (vm/runtime.go) and, through it, `equal` (generated vm/helpers.go): Bridge/BrRuntimeEq.v ---- *)
+Require X.Bridge.BrRuntimeEq.
+
+(* for every function environment, NumMethod oracle, loop fuel F above the length of a, call depth >= 1 and all
+   values a, b that are not of a declared slice / map / struct type (named_ok) with len(a) a Go int: interpreting
+   the regenerated equalSequences (i) whatever `equal` answers on the elements, gives the kind tests, the length
+   test and the index loop of eqseq_spec (induction over the element lists); (ii) with the model's `equal` on the
+   elements, gives the model's sequence equality (the loop and the length test of Prim.equal_v); (iii) and
+   p_equal - what Sem.eval and the model VM use for ==, != and in - is ONE TURN OF THE SOURCE'S `equal`
+   (regenerated kind-pair table, then isNil(a) && isNil(b), then equalSequences, then DeepEqual: the regenerated
+   order FTNilSeqDeepEqual) whose recursive calls answer p_equal *)
+Theorem C01_equal_sequences_is_source : X.Bridge.BrRuntimeEq.equal_sequences_is_source_statement.
+Proof. exact X.Bridge.BrRuntimeEq.equal_sequences_is_source. Qed.
+Print Assumptions C01_equal_sequences_is_source.
+
+(* the recursion closed: n nested turns of the source's `equal` (the innermost answering "out of depth") ARE
+   p_equal on every a whose nesting of sequences is below n - induction on the size of the LEFT value, the rank
+   that decreases at every call of `equal` inside equalSequences - inside the decidable fragment eq_frag (at every
+   nesting level: declared types are declared basic types, sequences shorter than the loop fuel F, F a Go int) *)
+Theorem C01_equal_is_source : X.Bridge.BrRuntimeEq.equal_is_source_statement.
+Proof. exact X.Bridge.BrRuntimeEq.equal_is_source_closed. Qed.
+Print Assumptions C01_equal_is_source.
+
+(* without named_ok the statement is false of the MODEL: reflect sees a value of a declared slice type as a
+   slice (`Ids{1} == []int{1}` is true in the code, as the comment of equalSequences promises), Prim.equal_v has
+   no case for it and answers DeepEqual = false; the code is right, the model is narrower *)
+Theorem C01_equal_sequences_full_statement_refuted : ~ X.Bridge.BrRuntimeEq.equal_sequences_full_statement.
+Proof. exact X.Bridge.BrRuntimeEq.equal_sequences_full_statement_refuted. Qed.
+Print Assumptions C01_equal_sequences_full_statement_refuted.
+
+(* non-vacuity: []int against []interface{} with an int64 inside, different lengths, a differing element, a
+   non-sequence, nil against empty slice, nested sequences through the rebuilt `equal`, DeepEqual, both nil, the
+   table; and the hypotheses of the two theorems on these values *)
+Example C01_equal_sequences_examples : X.Bridge.BrRuntimeEq.equal_sequences_examples_statement.
+Proof. exact X.Bridge.BrRuntimeEq.equal_sequences_examples. Qed.
 
 (* without the carve-outs on values of declared types the statements are false of the MODEL (reflect sees the
    underlying type of a named slice / string, Sem/Prim.v does not): three witnesses *)
